@@ -17,6 +17,7 @@ import (
 	"os"
 	"path/filepath"
 	"strings"
+	"testing"
 	"sync"
 	"time"
 
@@ -316,6 +317,10 @@ func runC09(w *W) {
 		pin := pin
 		w.Case("Lseq pins="+pin, func() CaseOut { return c09Sequences(p, pin, w.Thorough()) })
 	}
+	for _, role := range []string{"server", "client"} {
+		role := role
+		w.Case("Ltime role="+role, func() CaseOut { return c09Time(w.T, role) })
+	}
 	// ---------- level 2: real crypto/tls handshakes with the configurations receptor builds
 	for _, is := range c09Issuers {
 		for _, va := range c09Validities {
@@ -454,6 +459,76 @@ func c09Sequences(p *c09PKI, pin string, thorough bool) CaseOut {
 		}
 	}
 	out.Outcome = "seq pin=" + pin
+	return out
+}
+
+// c09Time: the validity window is judged at the time of the handshake, not at the time the configuration was
+// made: one long-lived verification function / listener configuration / dialer configuration, a certificate
+// that expires (and one that becomes valid) while it is in use — in a bubble, 25 virtual hours pass.
+func c09Time(t *testing.T, role string) CaseOut {
+	var out CaseOut
+	out.Nontrivial = true
+	bubble(t, func(t *testing.T) {
+		p := c09Setup()
+		soon := p.make(c09CertSpec{"trusted", "valid", "both", "dns+id"})   // valid now, expired in 25 h
+		later := p.make(c09CertSpec{"trusted", "notyet", "both", "dns+id"}) // not yet valid now, valid in 25 h
+		vt := netceptor.VerifyServer
+		if role == "client" {
+			vt = netceptor.VerifyClient
+		}
+		cfg := &tls.Config{RootCAs: p.pool, ClientCAs: p.pool}
+		f := netceptor.ReceptorVerifyFunc(cfg, nil, c09Expected, netceptor.ExpectedHostnameTypeReceptor, vt, quietLogger())
+		dir, _ := os.MkdirTemp(p.dir, "time-")
+		defer os.RemoveAll(dir)
+		own := p.makeCustom(c09CertSpec{"trusted", "valid", "both", "dns+id"}, []string{c09Expected}) // 1990-2100
+		ownCert, ownKey := pemCertKey(dir, "own", own)
+		n := netceptor.New(nil, c09Expected)
+		n.Logger.SetOutput(nopWriter{})
+		var sv, cl *tls.Config
+		if role == "client" {
+			scfg := netceptor.TLSServerConfig{Name: "s", Cert: ownCert, Key: ownKey, RequireClientCert: true, ClientCAs: p.caFile, SkipReceptorNamesCheck: true}
+			sv, _ = scfg.PrepareTLSServerConfig(n)
+		} else {
+			ccfg := netceptor.TLSClientConfig{Name: "c", Cert: ownCert, Key: ownKey, RootCAs: p.caFile, SkipReceptorNamesCheck: true}
+			if base, fps, err := ccfg.PrepareTLSClientConfig(n); err == nil {
+				n.SetClientTLSConfig("c", base, fps)
+				cl, _ = n.GetClientTLSConfig("c", c09Expected, netceptor.ExpectedHostnameTypeReceptor)
+			}
+		}
+		peer := func(c c09Cert) *tls.Config {
+			return &tls.Config{Certificates: []tls.Certificate{{Certificate: [][]byte{c.der}, PrivateKey: c.key}}, RootCAs: p.pool, ServerName: c09Expected, MinVersion: tls.VersionTLS12}
+		}
+		judge := func(when string, c c09Cert, name string, want bool) {
+			got := f([][]byte{c.der}, nil) == nil
+			out.count("time_decisions", 1)
+			if got != want {
+				out.violate(fmt.Sprintf("tls:time:%s:verify-func-says-%v:%s", name, got, role), "role=%s, %s: the long-lived verification function judges the certificate that is %s as accepted=%v", role, when, name, got)
+			}
+			fresh := netceptor.ReceptorVerifyFunc(cfg, nil, c09Expected, netceptor.ExpectedHostnameTypeReceptor, vt, quietLogger())([][]byte{c.der}, nil) == nil
+			if fresh != want {
+				out.violate(fmt.Sprintf("tls:time:%s:fresh-verify-func-says-%v:%s", name, fresh, role), "role=%s, %s: a fresh verification function judges the certificate that is %s as accepted=%v", role, when, name, fresh)
+			}
+			var ok bool
+			if role == "client" && sv != nil {
+				ok, _, _ = handshake(peer(c), sv)
+			} else if role == "server" && cl != nil {
+				ok, _, _ = handshake(cl, peer(c))
+			} else {
+				return
+			}
+			out.count("time_handshakes", 1)
+			if ok != want {
+				out.violate(fmt.Sprintf("tls:time:%s:handshake-%v:%s", name, ok, role), "role=%s, %s: a handshake through the long-lived configuration with the certificate that is %s succeeded=%v", role, when, name, ok)
+			}
+		}
+		judge("at the start", soon, "valid-now-expired-later", true)
+		judge("at the start", later, "not-yet-valid-now-valid-later", false)
+		time.Sleep(25 * time.Hour)
+		judge("25 hours later", soon, "valid-now-expired-later", false)
+		judge("25 hours later", later, "not-yet-valid-now-valid-later", true)
+		n.Shutdown()
+	})
+	out.Outcome = "time role=" + role
 	return out
 }
 
